@@ -4,6 +4,7 @@ go 1.21
 
 require (
 	github.com/anishathalye/porcupine v1.3.0
+	github.com/cespare/xxhash/v2 v2.2.0
 	github.com/pinealctx/neptune v0.0.0
 	go.uber.org/zap v1.24.0
 	gorm.io/driver/mysql v1.5.1
@@ -11,7 +12,6 @@ require (
 )
 
 require (
-	github.com/cespare/xxhash/v2 v2.2.0 // indirect
 	github.com/dgryski/go-rendezvous v0.0.0-20200823014737-9f7001d12a5f // indirect
 	github.com/eapache/queue v1.1.0 // indirect
 	github.com/go-sql-driver/mysql v1.7.1 // indirect
